@@ -71,10 +71,14 @@ class DBusMessage :
 #            if not a.startswith('raw'):
 #                print '    %s = %s' % (a.ljust(15), str(getattr(self,a)))
 
-    def _marshal(self, newSerial=True, oobFDs=None):
+    def _marshal(self, newSerial=True, oobFDs=None, rawBody=None):
         """
         Encodes the message into binary format. The resulting binary message is
         stored in C{self.rawMessage}
+
+        @param rawBody: if not None, the already encoded body (in the byte
+                        order given by C{self.endian}) to use instead of
+                        encoding C{self.body}
         """
         flags = 0
 
@@ -88,7 +92,9 @@ class DBusMessage :
         _headerAttrs = self._headerAttrs
 
         # marshal body before headers to know if the 'unix_fd' header is needed
-        if self.signature:
+        if rawBody is not None:
+            binBody = rawBody
+        elif self.signature:
             binBody = b''.join(
                 marshal.marshal(
                     self.signature,
@@ -115,7 +121,7 @@ class DBusMessage :
                     hval = marshal.ObjectPath(hval)
                 elif attr_name == 'signature':
                     hval = marshal.Signature(hval)
-                elif attr_name == 'unix_fds':
+                elif attr_name in ('unix_fds', 'reply_serial'):
                     hval = marshal.UInt32(hval)
 
                 self.headers.append([code, hval])
